@@ -85,6 +85,10 @@ class _Index(object):
         # the binding exposes the buffer protocol, so numpy.array(x, copy=True) copies: honour numpy 2's copy keyword
         return out.copy() if copy else out
 
+    def __buffer__(self, flags):
+        # PEP 688: the binding's classes implement the buffer protocol (pyarrow.py_buffer(index) relies on it)
+        return memoryview(self._view())
+
     def __len__(self):
         return self._info()[2]
 
@@ -797,6 +801,10 @@ class NumpyArray(Content):
         if dtype is not None and np.dtype(dtype) != out.dtype:
             return out.astype(dtype)
         return out.copy() if copy else out
+
+    def __buffer__(self, flags):
+        # PEP 688: the binding's NumpyArray implements the buffer protocol (pyarrow.py_buffer(layout.content) relies on it)
+        return memoryview(self.__array__())
 
     shape = property(lambda self: tuple(self._info()[2]))
     strides = property(lambda self: tuple(self._info()[3]))
